@@ -74,6 +74,7 @@ func c02Triggers(d *Defs, c c02Combo) []string {
 				set["struct.empty"] = true
 			}
 		case SEnumI:
+			set["enumI"] = true
 			vals := map[int64]bool{}
 			for _, v := range s.EnumI {
 				vals[v] = true
@@ -96,6 +97,13 @@ func c02Triggers(d *Defs, c c02Combo) []string {
 					}
 				}
 			}
+		case SInt:
+			lo, hi := s.effRange()
+			if (s.Lo != nil || s.Hi != nil) && (hi > 2147483647 || lo < -2147483648) {
+				set["int.bounds.beyondInt32"] = true
+			}
+		case SAny:
+			set["any"] = true
 		case SDict:
 			if e := d.c02Resolve(s.Elem); e != nil && !c02IsScalarKind(e.Kind) {
 				hasDictOfNonScalar = true
